@@ -108,6 +108,10 @@ def export_result(f):
             SYMBOLIC_BIG = old
 
 
+BV_WIDTH_OPS = frozenset(["bv_not", "bv_and", "bv_or", "bv_xor", "bv_concat", "bv_neg", "bv_add", "bv_sub", "bv_mul", "bv_udiv",
+                          "bv_urem", "bv_lshl", "bv_lshr", "bv_sdiv", "bv_srem", "bv_ashr", "bv_comp"])
+
+
 def export(f, memo=None):
     """Structural export of an FNode (iterative, DAG-memoised)."""
     if memo is None:
@@ -165,7 +169,8 @@ def export(f, memo=None):
             r = node(name, a=kids, i=[_chk(x.bv_width()), _chk(x.bv_rotation_step())])
         elif nt in (op.BV_ZEXT, op.BV_SEXT):
             r = node(name, a=kids, i=[_chk(x.bv_width()), _chk(x.bv_extend_step())])
-        elif nt in op.BV_OPERATORS:
+        elif name in BV_WIDTH_OPS:
+            # (the exporter's own table: pySMT's operator CLASSES are code under test)
             r = node(name, a=kids, i=[_chk(x.bv_width())])
         else:
             r = node(name, a=kids)
